@@ -17,7 +17,15 @@ def collection_classes(prog: Program) -> list[ClassInfo]:
 
 
 def _first_base(prog: Program, c: ClassInfo) -> ClassInfo | None:
-    return prog.classes[c.bases[0]] if c.bases else None
+    """The kind class of a collection class: the first class of its MRO that is not itself a collection (PointTensor for
+    PointCollection, also when private intermediate collection bases are inserted)."""
+    tc = prog.find_cls("TensorCollection")
+    if tc is None or not prog.is_subclass(c, tc):
+        return prog.classes[c.bases[0]] if c.bases else None
+    for k in prog.mro(c)[1:]:
+        if not prog.is_subclass(k, tc):
+            return k
+    return None
 
 
 def _element_class(prog: Program, c: ClassInfo) -> tuple[ClassInfo | None, ClassInfo | None, ast.AST | None]:
@@ -42,12 +50,12 @@ def rule_K1(run: Run, prog: Program) -> int:
         n += 1
         owner, elem, val = _element_class(prog, c)
         fam = _first_base(prog, c)
-        if owner is not c:
+        if owner is not c and (elem is None or fam is None or not prog.is_subclass(elem, fam) or owner.name == "TensorCollection"):
             run.add("E6.K1", c.name, "_element_class", VIOLATION,
-                    f"{c.name} does not set _element_class: integer indexing / iteration / from_tensor fall back to "
-                    f"{elem.name if elem else 'the base default'}", c.loc)
+                    f"{c.name} does not set _element_class (it inherits {elem.name if elem else 'nothing'} from {owner.name if owner else '?'}): integer "
+                    f"indexing / iteration / from_tensor yield {elem.name if elem else 'the base default'} objects", c.loc)
             continue
-        loc = f"{c.module.rel}:{val.lineno}"
+        loc = f"{(owner or c).module.rel}:{val.lineno}"
         if elem is None:
             run.add("E6.K1", c.name, "_element_class", UNDECIDED, "_element_class is not a plain class reference", loc)
             continue
@@ -673,6 +681,13 @@ def rule_K4(run: Run, prog: Program) -> int:
                         res_alias = {hps[i] for i, x in enumerate(call.args) if i < len(hps) and isinstance(x, ast.Name) and x.id in rn}
                         tr_alias = {hps[i] for i, x in enumerate(call.args) if i < len(hps) and isinstance(x, ast.Name) and x.id == ctr}
                         scopes.append((hook, res_alias, tr_alias))
+                for call in walk_no_nested(cur.node):  # methods called ON the result: result._update_support(...)
+                    if isinstance(call, ast.Call) and isinstance(call.func, ast.Attribute) and isinstance(call.func.value, ast.Name) \
+                            and call.func.value.id in rn:
+                        m2 = prog.lookup(s, call.func.attr)
+                        if m2 is not None and m2 is not cur and m2.params():
+                            tr_alias = {p.arg for p, x in zip(m2.params()[1:], call.args) if isinstance(x, ast.Name) and x.id == ctr}
+                            scopes.append((m2, {m2.params()[0].arg}, tr_alias | {"__result_is_self__"}))
                 for sf, res_names, tr_names in scopes:
                     sself = sf.params()[0].arg if sf.params() else "self"
                     for st in walk_no_nested(sf.node):
@@ -682,7 +697,7 @@ def rule_K4(run: Run, prog: Program) -> int:
                                     ok = True
                                     in_slices = {id(y) for x in ast.walk(st.value) if isinstance(x, ast.Subscript) for y in ast.walk(x.slice)}
                                     used = {x.id for x in ast.walk(st.value) if isinstance(x, ast.Name) and id(x) not in in_slices}
-                                    if sself in used and not (used & res_names) and not (used & tr_names):
+                                    if "__result_is_self__" not in tr_names and sself in used and not (used & res_names) and not (used & tr_names):
                                         stale = (sf, st)
                 if ok:
                     break
